@@ -170,6 +170,15 @@ func buildLifted(mode Mode, asserts []*term.Term) *Script {
 					e = name
 				}
 				def(t, e, one)
+				if strings.HasPrefix(t.Name, "h.") {
+					app := UFApp{Name: strings.TrimPrefix(t.Name, "h."), Val: [2]string{fr[t.ID].n, fr[t.ID].d}}
+					for i, x := range t.Args {
+						if x.Sort.K == term.KFloat {
+							app.Args = append(app.Args, [2]string{af(i).n, af(i).d})
+						}
+					}
+					sc.UFApps = append(sc.UFApps, app)
+				}
 			default:
 				p.fail("lift: unprintable float op %s", t.Op)
 				fr[t.ID] = frac{"0.0", one}
